@@ -399,6 +399,12 @@ func genField(r *rand.Rand, k Kind, b []byte) {
 		b[0], b[1], b[2] = byte(v), byte(v>>8), byte(v>>16)
 	case KIPv4:
 		r.Read(b[:4])
+		switch r.Intn(8) {
+		case 0:
+			copy(b[:4], []byte{0, 0, 0, 0}) // 'not set'
+		case 1:
+			copy(b[:4], []byte{255, 255, 255, 255})
+		}
 	case KAddrPort, KMAC:
 		r.Read(b[:6])
 	case KVersion:
@@ -473,6 +479,10 @@ func spoil(r *rand.Rand, k Kind, b []byte, hardOnly bool) bool {
 			badNibble(r, b, 7)
 			return true
 		}
+		if r.Intn(5) == 0 {
+			b[4], b[5], b[6] = 0x24, 0, 0 // 24:00:00 on a valid date
+			return true
+		}
 		switch r.Intn(6) {
 		case 0:
 			b[4] = bcd2(over(r, 24))
@@ -506,6 +516,10 @@ func spoil(r *rand.Rand, k Kind, b []byte, hardOnly bool) bool {
 	case KSysTime:
 		if hardOnly || r.Intn(2) == 0 {
 			badNibble(r, b, 3)
+			return true
+		}
+		if r.Intn(4) == 0 {
+			b[0], b[1], b[2] = 0x24, 0, 0 // 24:00:00 ends a time profile segment, it is no time of day
 			return true
 		}
 		switch r.Intn(3) {
